@@ -10,6 +10,7 @@ import NutsProofs.Lemmas.C18
 import NutsProofs.Lemmas.C18Deep
 import NutsProofs.Lemmas.C18X
 import NutsModel.C18.RCacheOld
+import NutsProofs.Lemmas.C18Jwk
 
 namespace Nuts.C18.Props
 open Nuts Nuts.C18
@@ -529,6 +530,102 @@ example :
 
 example : readUvarint (appendUvarint 4613 ++ [48, 130]) = .ok (4613, [48, 130]) :=
   multicodec_prefix_roundtrip 4613 (by decide) [48, 130]
+
+/-! ### Deepening round 3: did:jwk (vdr/didjwk/resolver.go) — the document is a function of the identifier's base64 text -/
+
+set_option maxRecDepth 20000 in
+/-- the statement sequence of `didjwk.Resolver.Resolve` and `rawPrivateKeyOf` as regenerated from the source (method guard,
+    `base64.RawStdEncoding.DecodeString`, parser, private-key refusal `rawPrivateKey != nil`, EC point condition, the
+    returned document gets `document.ID = id`), and the refusal order the model runs with is the regenerated one -/
+theorem fact_did_jwk_flow :
+    Facts.C18.jwkFlow_Resolve =
+      ["if id.Method != \"jwk\"", "return nil, nil, fmt.Errorf(\"unsupported DID method: %s\", id.Method)", "b64EncodedJWK := id.ID",
+       "encodedJWK, err := base64.RawStdEncoding.DecodeString(b64EncodedJWK)", "if err != nil",
+       "return nil, nil, fmt.Errorf(\"failed to decode base64 (%v): %w\", b64EncodedJWK, err)", "key, err := jwk.ParseKey(encodedJWK)",
+       "if err != nil", "return nil, nil, fmt.Errorf(\"failed to parse JWK: %w\", err)", "rawPrivateKey, err := rawPrivateKeyOf(key)",
+       "if err != nil", "return nil, nil, fmt.Errorf(\"rawPrivateKeyOf() failed: %w\", err)", "if rawPrivateKey != nil",
+       "return nil, nil, fmt.Errorf(\"private keys are forbidden in DID JWK: %T\", rawPrivateKey)",
+       "publicRawKey, err := jwk.PublicRawKeyOf(key)", "if err != nil",
+       "return nil, nil, fmt.Errorf(\"failed to get PublicRawKeyOf(key): %w\", err)", "if-init ecKey, ok := <*ast.TypeAssertExpr>", "if ok",
+       "p := ecKey.Curve.Params().P",
+       "if ecKey.X == nil || ecKey.Y == nil || ecKey.X.Sign() < 0 || ecKey.Y.Sign() < 0 || ecKey.X.Cmp(p) >= 0 || ecKey.Y.Cmp(p) >= 0 || !ecKey.Curve.IsOnCurve(ecKey.X, ecKey.Y)",
+       "return nil, nil, errors.New(\"invalid JWK: EC public key is not a point on its curve\")", "keyID := <*ast.CompositeLit>",
+       "keyID.Fragment = \"0\"", "verificationMethod, err := did.NewVerificationMethod(keyID, godid.JsonWebKey2020, id, publicRawKey)",
+       "if err != nil", "return nil, nil, fmt.Errorf(\"failed to create verification method: %w\", err)", "document.ID = id",
+       "call document.AddAssertionMethod(verificationMethod)", "return &document, &<*ast.CompositeLit>, nil"] ∧
+    Facts.C18.jwkFlow_rawPrivateKeyOf =
+      ["if-init err := key.Raw(&rawUnspecifiedKey)", "if err != nil", "return nil, fmt.Errorf(\"failed to get raw key: %w\", err)",
+       "publicKey, err := jwk.PublicKeyOf(key)", "if err != nil", "return nil, fmt.Errorf(\"failed to get public key: %w\", err)",
+       "if-init err := publicKey.Raw(&rawPublicKey)", "if err != nil", "return nil, fmt.Errorf(\"failed to get raw public key: %w\", err)",
+       "if reflect.DeepEqual(rawUnspecifiedKey, rawPublicKey)", "return nil, nil", "return rawUnspecifiedKey, nil"] ∧
+    Facts.C18.jwkRefusals.take 2 = ["unsupported DID method: %s", "failed to decode base64 (%v): %w"] ∧
+    jwkOrderOf Facts.C18.jwkRefusals = jwkOrder := by decide
+
+/-- **did:jwk acceptance is sound**: whatever the library says about the decoded bytes — when `Resolve` (refusal order
+    regenerated from the source) accepts `did:<method>:<id>`, the method is `jwk`, the identifier IS unpadded standard
+    base64 of some bytes `raw`, the JWK parser accepted exactly those bytes, they carry NO private key, and an EC key is a
+    point of its curve.  (The document then is `document.ID = id` with that key: `id_bound`, `jwk_key_pure`.) -/
+theorem did_jwk_accept_sound (method id : Bytes) (lib : Bytes → JwkLib)
+    (h : resolveJwkClass (jwkOrderOf Facts.C18.jwkRefusals) method id lib = .ok) :
+    method = sJwk ∧ ∃ raw, b64Decode id = .ok raw ∧ (lib raw).parseOK = true ∧ (lib raw).rawErr = false ∧
+      (lib raw).isPrivate = false ∧ (lib raw).pubRawErr = false ∧ ((lib raw).isEC = true → (lib raw).onCurve = true) ∧
+      (lib raw).vmErr = false := by
+  rw [fact_did_jwk_flow.2.2.2] at h
+  unfold resolveJwkClass at h
+  split at h
+  · cases h
+  · rename_i hm
+    refine ⟨by simpa using hm, ?_⟩
+    split at h
+    · cases h
+    · cases h
+    · rename_i raw hd
+      refine ⟨raw, hd, ?_⟩
+      have hs := jwkSteps_ok (lib raw) jwkOrder h
+      have h1 := hs "parse" (by decide)
+      have h2 := hs "rawpriv" (by decide)
+      have h3 := hs "private" (by decide)
+      have h4 := hs "pubraw" (by decide)
+      have h5 := hs "curve" (by decide)
+      have h6 := hs "vm" (by decide)
+      simp only [jwkStep] at h1 h2 h3 h4 h5 h6
+      refine ⟨?_, ?_, ?_, ?_, ?_, ?_⟩
+      · cases hp : (lib raw).parseOK <;> simp_all
+      · cases hp : (lib raw).rawErr <;> simp_all
+      · cases hp : (lib raw).isPrivate <;> simp_all
+      · cases hp : (lib raw).pubRawErr <;> simp_all
+      · intro he; cases hp : (lib raw).onCurve <;> simp_all
+      · cases hp : (lib raw).vmErr <;> simp_all
+
+/-- **The identifier determines the key bytes** (`base64.RawStdEncoding` as modelled, unbounded): the unpadded standard
+    encoding of ANY byte string decodes back to exactly that byte string — so a did:jwk identifier built from a JWK text
+    resolves against that very text, whatever its length -/
+theorem b64_decode_encode (bs : Bytes) (h : ∀ x ∈ bs, x < 256) : b64Decode (b64Enc bs) = .ok bs :=
+  b64_roundtrip_aux bs h
+
+/-- did:jwk resolution of an encoded JWK text sees exactly that text: end to end through the decoder and the refusal order -/
+theorem did_jwk_of_encoded_text (order : List String) (bs : Bytes) (h : ∀ x ∈ bs, x < 256) (lib : Bytes → JwkLib) :
+    resolveJwkClass order sJwk (b64Enc bs) lib = jwkSteps (lib bs) order := by
+  unfold resolveJwkClass
+  rw [if_neg (by simp), b64_decode_encode bs h]
+
+/-- non-vacuity: `{}` (`e30`) decodes and is refused by the parser verdict; a private key is refused AFTER parsing and BEFORE
+    the curve check; `=` padding, `-` / `_` (URL alphabet) and a single left-over character are not base64 for Go's raw
+    standard decoder, CR / LF are skipped, non-zero trailing bits are accepted (`e31` = `e30`-quantum + other low bits) -/
+example :
+    b64Decode [101, 51, 48] = .ok [123, 125] ∧ b64Enc [123, 125] = [101, 51, 48] ∧
+    b64Decode [101, 51, 49] = .ok [123, 125] ∧
+    b64Decode [101, 10, 51, 13, 48] = .ok [123, 125] ∧
+    b64Decode [101, 51, 48, 61] = .err "corrupt" ∧ b64Decode [101, 45, 48] = .err "corrupt" ∧ b64Decode [101] = .err "corrupt" ∧
+    b64Decode [101, 51, 48, 101, 101] = .err "corrupt" ∧
+    resolveJwkClass jwkOrder sJwk [101, 51, 48] (fun _ => { parseOK := false }) = .parse ∧
+    resolveJwkClass jwkOrder sJwk [101, 51, 48] (fun _ => { isPrivate := true, isEC := true, onCurve := false }) = .priv ∧
+    resolveJwkClass jwkOrder sJwk [101, 51, 48] (fun _ => { isEC := true, onCurve := false }) = .curve ∧
+    resolveJwkClass jwkOrder sJwk [101, 51, 48] (fun _ => {}) = .ok ∧
+    resolveJwkClass jwkOrder sKey [101, 51, 48] (fun _ => {}) = .method := by decide
+
+example : b64Decode (b64Enc [123, 34, 107, 116, 121, 34, 58, 49, 125]) = .ok [123, 34, 107, 116, 121, 34, 58, 49, 125] :=
+  b64_decode_encode _ (by decide)
 
 /-! ### Deepening round 2: did:x509 (vdr/didx509) — the document is bound to the identifier AND to the presented chain -/
 
